@@ -2531,6 +2531,14 @@ def replay(pid, path):
         if crashed or ref or model or static or probs:
             out.violations.append(v)
         return out
+    if v.get('kind') == 'rxexpr':
+        # the compile-time regex::expr objects live in harness/rxexpr.cpp: the section is re-run as a whole
+        o2 = Outcome()
+        rxexpr_language_section(o2, 'quick', random.Random(1))
+        print('regex::expr section: %d deviation(s)' % len(o2.violations))
+        if o2.violations:
+            out.violations.append(v)
+        return out
     if v.get('kind') == 'wf':
         print('re-run ./check C17 (regenerates the well-formedness translation units)')
         out.violations.append(v)
